@@ -13,9 +13,15 @@ pub fn spawn_task<F, R>(
     R: Send + 'static,
     F: FnOnce() -> R + Send + 'static,
 {
+    #[cfg(feature = "verif")]
+    let verif_gate = crate::verif::lazy::register(crate::verif::lazy::chan_id(&tx));
     thread_pool.execute(move || {
+        #[cfg(feature = "verif")]
+        crate::verif::lazy::start(verif_gate);
         let res = std::panic::catch_unwind(std::panic::AssertUnwindSafe(|| task()));
         let _ = tx.send(res);
+        #[cfg(feature = "verif")]
+        crate::verif::lazy::finish(verif_gate);
     });
 }
 
@@ -27,6 +33,8 @@ pub fn join_task<R>(receiver: &crossbeam_channel::Receiver<TaskResult<R>>) -> R
 where
     R: Send + 'static,
 {
+    #[cfg(feature = "verif")]
+    crate::verif::lazy::before_join(crate::verif::lazy::chan_id(receiver), &|| !receiver.is_empty());
     // UNWRAP: The sender is not expected to be dropped by the spawned task.
     let res = receiver.recv().unwrap();
     match res {
